@@ -37,6 +37,8 @@ type Gen struct {
 	snapFuncs map[string]bool // functions the contracts were written against (spec/funcs.json)
 	inlOnly   map[*ssa.Function]bool
 	plans     map[*ssa.Function]*inlPlan
+	snapFields  map[string]map[string]bool // struct key -> fields that existed when the contracts were written
+	newFieldAnn map[string]*fieldAnn
 }
 
 type locKind int
@@ -1589,6 +1591,8 @@ func (t *fnTrans) slice(in *ssa.Slice) {
 		base := x
 		if l, ok := t.locs[in.X]; ok && l.kind == locCell {
 			base = l.base
+			// slicing an array that is a struct field hands out a writable alias of the field
+			t.guardAccess(l, true, in.Pos())
 		}
 		t.setVal(in, fmt.Sprintf("(mk_slice %s %s (- %s %s) (- %s %s))", base, lo, hi, lo, mx, lo))
 	case *types.Basic: // string
